@@ -310,10 +310,10 @@ Proof.
     cbn [RS kmul K]. replace (c * rms * (c * rms) * ss) with (c * c * rms * rms * ss) by ring.
     rewrite ps_c_sq. pose proof ps_ss_pos'. field. lra.
   - intros i _. rewrite <- (sumZ_scale_l RS RS_ring). apply (sumZ_ext RS). intros j _.
-    unfold ps_scale. fold cnt. fold ss. fold c. cbn [RS kmul K]. ring. Qed.
+    unfold ps_scale, ps_scale_with. fold cnt. fold ss. fold c. cbn [RS kmul K]. ring. Qed.
 
 Lemma ps_scale_zero_iff i j : rms <> 0 -> (ps_scale Risz Rnrm opd rms i j = 0 <-> get opd i j = 0).
-Proof. intros Hr. unfold ps_scale. fold cnt. fold ss. fold c. cbn [RS kmul K]. pose proof ps_c_pos.
+Proof. intros Hr. unfold ps_scale, ps_scale_with. fold cnt. fold ss. fold c. cbn [RS kmul K]. pose proof ps_c_pos.
   split; intros H0.
   - apply Rmult_integral in H0. destruct H0 as [H0|H0]; [|contradiction].
     apply Rmult_integral in H0. destruct H0 as [H0|H0]; [assumption|lra].
@@ -337,12 +337,13 @@ Proof. intros Hnz. set (opd := ps_opd filt mask).
   assert (Hnz' : exists i j, in_range opd i j /\ get opd i j <> 0).
   { destruct Hnz as (i & j & Hr & Hx). exists i, j. split; [exact Hr | exact Hx]. }
   pose proof (ps_cnt_pos opd Hnz') as Hcnt.
-  unfold power_spectrum_post. fold opd.
+  unfold power_spectrum_post. cbv zeta. fold opd.
+  change (ps_scale_with Rnrm opd (ps_count Risz opd) (ps_ss opd) rms) with (ps_scale Risz Rnrm opd rms).
   destruct (ps_count Risz opd =? 0)%Z eqn:E; [apply Z.eqb_eq in E; lia|].
   eexists. split; [reflexivity|]. cbn [nr nc get].
   assert (Hen := ps_energy opd rms Hnz'). cbn [opd ps_opd nr nc] in Hen. fold opd in Hen.
   split; [reflexivity|]. split; [reflexivity|]. split; [|split].
-  - intros i j H0. unfold ps_scale. cbn [opd ps_opd get RS kmul K]. rewrite H0. ring.
+  - intros i j H0. unfold ps_scale, ps_scale_with. cbn [opd ps_opd get RS kmul K]. rewrite H0. ring.
   - exact Hen.
   - intros Hr.
     assert (Hc : ps_count Risz (mkArr (nr mask) (nc mask) (ps_scale Risz Rnrm opd rms)) = ps_count Risz opd).
